@@ -550,6 +550,9 @@ theorem iterateConsensusStateDescending_skeleton : Gen.LC.iterateConsensusStateD
 /-- `IBCMessagesDecorator.AnteHandle` (x/lightclient/keeper) as mirrored by the model -/
 theorem anteHandle_skeleton : Gen.LC.anteHandle =
   ["msgs := tx.GetMsgs()",
+   "if err := checkedMsgsTravelWithIBCOnly(msgs); err != nil {",
+   "return ctx, err",
+   "}",
    "range msgs as _, m {",
    "switch msg := m.(type) {",
    "case *ibcclienttypes.MsgSubmitMisbehaviour:",
@@ -569,6 +572,24 @@ theorem anteHandle_skeleton : Gen.LC.anteHandle =
    "}",
    "}",
    "return next(ctx, tx, simulate)"] := rfl
+
+/-- `checkedMsgsTravelWithIBCOnly` (x/lightclient/keeper) as mirrored by `Model/LCTx.mixedRefusal` -/
+theorem checkedMsgsTravelWithIBCOnly_skeleton : Gen.LC.checkedMsgsTravelWithIBCOnly =
+  ["checked := false",
+   "onlyIBC := true",
+   "range msgs as _, m {",
+   "switch m.(type) {",
+   "case *ibcclienttypes.MsgUpdateClient, *ibcclienttypes.MsgSubmitMisbehaviour, *ibcchanneltypes.MsgChannelOpenAck:",
+   "checked = true",
+   "}",
+   "if !strings.HasPrefix(sdk.MsgTypeURL(m), \"/ibc.core.\") {",
+   "onlyIBC = false",
+   "}",
+   "}",
+   "if checked && !onlyIBC {",
+   "return wrap(gerrc.ErrInvalidArgument)",
+   "}",
+   "return nil"] := rfl
 
 /-- `IBCMessagesDecorator.HandleMsgUpdateClient` (x/lightclient/keeper) as mirrored by the model -/
 theorem handleMsgUpdateClient_skeleton : Gen.LC.handleMsgUpdateClient =
